@@ -1072,6 +1072,28 @@ def main(argv):
                           "via": {"-i": sum(1 for j in jobs if j[2] == "i"), "stdin": sum(1 for j in jobs if j[2] == "stdin")},
                           "fancy_text": sum(1 for i in range(len(jobs)) if i % 3 == 2)}
 
+    # ---------------------------------------------------------------- search 3: nesting depth through the CLI
+    depth_res = {}
+    for n in (6, 40, 100, 126, 127, 200):
+        prog = "output x = reduce(range(%d), (acc, i) => [acc], 0)" % n
+        rc1, out1, err1 = run_cli(cli, [prog])
+        if rc1 != 0:
+            res.violation("the CLI fails to output a nested list", {"kind": "cli-depth", "program": prog,
+                                                                     "observed": (out1 + err1)[:300]})
+            break
+        rc2, out2, err2 = run_cli(cli, [ECHO], stdin_text=out1)
+        ok = rc2 == 0 and out2 == out1
+        depth_res[n] = "ok" if ok else ("rejected" if "recursion limit" in err2 else "differs")
+        if ok:
+            continue
+        if n + 1 > 127 and depth_res[n] == "rejected" and "C06-F31" in known:
+            continue
+        res.violation("a nested list written by `output` is not read back (output -> JSON -> input)",
+                      {"kind": "cli-depth", "program": prog, "depth": n, "second_run": (out2 + err2)[:300],
+                       "rerun": "blots '%s' | blots '%s'" % (prog, ECHO)})
+        break
+    res.streams["CLI-depth"] = depth_res
+
     # ---------------------------------------------------------------- known findings
     for kid, e in sorted(known.items()):
         if kid == "C06-F16":
@@ -1084,6 +1106,10 @@ def main(argv):
             res.known("%s JSON number parsing is not correctly rounded: %d of %d witness doubles come back 1 ulp off "
                       "through `blots -i` (serde_json without float_roundtrip)%s"
                       % (kid, len(bad), len(wb), "" if bad else " (no longer reproduces)"))
+        elif kid == "C06-F31":
+            still = depth_res.get(127) == "rejected"
+            res.known("%s a list nested 127 deep is written by `output` but rejected as input (serde_json recursion "
+                      "limit 128)%s" % (kid, "" if still else " (no longer reproduces)"))
         else:
             res.known("%s %s" % (kid, e.get("what", "")))
 
@@ -1224,6 +1250,11 @@ def do_replay(h, cli, path):
         else:
             ok = f[0] == "OK:" + rp["expected_value"] and f[1] == "T"
         return 0 if ok else 1
+    if kind == "cli-depth":
+        rc1, out1, err1 = run_cli(cli, [rp["program"]])
+        rc2, out2, err2 = run_cli(cli, [ECHO], stdin_text=out1)
+        print("first run exit", rc1, "second run exit", rc2, (err2 or out2)[:300])
+        return 0 if (rc1 == 0 and rc2 == 0 and out1 == out2) else 1
     if kind == "cli-echo":
         text = rp["input_json"]
         if rp.get("via") == "i":
